@@ -11,9 +11,27 @@ use std::sync::atomic::{AtomicU64, Ordering};
 
 /// Tick budget of one run (S1..S4 crossings + loop-head ticks).
 pub static WATCHDOG: AtomicU64 = AtomicU64::new(5_000_000);
+/// Number of runs that hit the watchdog in this process (campaigns other than C04 stop expanding
+/// work once this is large: on a tree where the solvers hang, every such run costs a full budget).
+pub static HANGS: AtomicU64 = AtomicU64::new(0);
 
 thread_local! {
     static LAST_PANIC: RefCell<Option<String>> = const { RefCell::new(None) };
+    /// per-thread multiplier of the watchdog (so that a re-run with a larger budget on one worker
+    /// cannot influence the verdicts of runs on other workers)
+    static WD_SCALE: std::cell::Cell<u64> = const { std::cell::Cell::new(1) };
+}
+
+/// Run `f` with the tick budget multiplied by `k` on this thread only.
+pub fn with_watchdog_scale<T>(k: u64, f: impl FnOnce() -> T) -> T {
+    let old = WD_SCALE.with(|c| c.replace(k));
+    let r = f();
+    WD_SCALE.with(|c| c.set(old));
+    r
+}
+
+fn watchdog_budget() -> u64 {
+    WATCHDOG.load(Ordering::Relaxed).saturating_mul(WD_SCALE.with(|c| c.get()))
 }
 
 /// Install a silent panic hook that records message and location per thread.
@@ -36,6 +54,11 @@ pub fn install_panic_hook() {
             .unwrap_or_default();
         LAST_PANIC.with(|p| *p.borrow_mut() = Some(format!("{msg} @ {loc}")));
     }));
+}
+
+/// message + location of the last panic caught on this thread (set by the silent hook)
+pub fn take_last_panic() -> Option<String> {
+    LAST_PANIC.with(|p| p.borrow_mut().take())
 }
 
 #[derive(Clone, Debug, PartialEq)]
@@ -115,6 +138,7 @@ fn status_code(s: Status) -> u64 {
 
 fn classify_panic(e: Box<dyn std::any::Any + Send>) -> Verdict {
     if let Some(w) = e.downcast_ref::<ivp::verif::Watchdog>() {
+        HANGS.fetch_add(1, Ordering::Relaxed);
         return Verdict::Hang {
             ticks: w.ticks,
             site: w.site,
@@ -161,7 +185,7 @@ pub fn sol_hash(h: &mut u64, sol: &Solution) {
 /// Run `ivp::solve_ivp` on the scenario. `record` = keep the full seam log.
 pub fn run_high(sc: &Scenario, record: bool) -> HighOut {
     let sim = SimIVP::new(sc, record);
-    ivp::verif::reset(WATCHDOG.load(Ordering::Relaxed));
+    ivp::verif::reset(watchdog_budget());
     let r = catch_unwind(AssertUnwindSafe(|| {
         let opts = Options::builder()
             .method(sc.method.to_ivp())
@@ -211,7 +235,7 @@ pub fn run_high(sc: &Scenario, record: bool) -> HighOut {
 pub fn run_low(sc: &Scenario, record: bool) -> LowOut {
     let sim = SimIVP::new(sc, record);
     let mut so = SimSolOut::new(&sim, sc.actions.clone());
-    ivp::verif::reset(WATCHDOG.load(Ordering::Relaxed));
+    ivp::verif::reset(watchdog_budget());
     let r = catch_unwind(AssertUnwindSafe(|| {
         let k = &sc.knobs;
         let nmax = sc.max_steps.unwrap_or(usize::MAX);
